@@ -500,12 +500,14 @@ class SequenceBasedRoutingProblem(RoutingProblem):
             node_nm = self.node_names[ni]
             # check and add entry arc
             if not self.check_arc((0, ni)):
-                self.add_arc(depot_nm, node_nm, 0, high_cost)
+                if not self.add_arc(depot_nm, node_nm, 0, high_cost):
+                    raise ValueError(f"Construction heuristic failed: cannot add arc {depot_nm} -- {node_nm}")
                 logger.info("Adding arc %s -- %s", depot_nm, node_nm)
             used_sequences.append((vi, 1, ni))
             # check and add exit arc
             if not self.check_arc((ni, 0)):
-                self.add_arc(node_nm, depot_nm, 0, high_cost)
+                if not self.add_arc(node_nm, depot_nm, 0, high_cost):
+                    raise ValueError(f"Construction heuristic failed: cannot add arc {node_nm} -- {depot_nm}")
                 logger.info("Adding arc %s-- %s", node_nm, depot_nm)
             # finish out sequence at depot
             for si in range(2, self.max_sequence_length-1):
@@ -529,7 +531,9 @@ class SequenceBasedRoutingProblem(RoutingProblem):
             return
         node_nm = self.node_names[node_index]
         depot_nm = self.node_names[0]
-        self.add_arc(node_nm, depot_nm, 0, 0)
+        if not self.add_arc(node_nm, depot_nm, 0, 0):
+            # (the strict timing rule can refuse the arc when the depot window is finite)
+            raise ValueError(f"Construction heuristic failed: cannot add arc {node_nm} -- {depot_nm}")
         logger.info("Adding arc %s -- %s", node_nm, depot_nm)
         # We are changing data - everything needs to be rebuilt
         self.variables_enumerated = False
